@@ -544,18 +544,19 @@ def Call.num : Call → Nat
   | _ => 1
 
 /-- Documented pairing rules (bounded_queue.h): USE_FUTEX_WAIT on one side needs USE_FUTEX_WAKE on
-every release of the opposite side (`c.wakes`), batch sizes stay within the capacity. -/
+every release of the opposite side (`c.wakes`), batch sizes are between 1 and the capacity. -/
 def Call.paired (c : Cfg) (k : Call) : Bool :=
   [Side.push, Side.pop].all (fun sd =>
     (!k.futexWaits sd || c.wakes sd.other) && (!(k.touches sd && c.wakes sd) || k.wakesOn sd))
-  && decide (k.num ≤ c.cap)
+  && decide (1 ≤ k.num ∧ k.num ≤ c.cap)
 
 /-- ghost: the call a thread is executing (the transition system remembers it for the contract) -/
 structure Sys where
   s : State
   cur : Nat → Option Call
+  start : Nat → Side → Nat      -- ghost: dispenser values when the thread's current call began
 
-def Sys.init : Sys := { s := State.init, cur := fun _ => none }
+def Sys.init : Sys := { s := State.init, cur := fun _ => none, start := fun _ _ => 0 }
 
 /-- CONCURRENT = false contract: no other operation on that side overlaps -/
 def Sys.mayStart (y : Sys) (t : Nat) (k : Call) : Prop :=
@@ -569,9 +570,9 @@ inductive Step (c : Cfg) : Sys → Sys → Prop
       stepThread c y.s t inp = some (s', l) → Step c y { y with s := s' }
   | call (y : Sys) (t : Nat) (k : Call) :
       y.s.pc t = .idle → k.paired c = true → y.mayStart t k →
-      Step c y { s := y.s.setPc t k.entry, cur := upd y.cur t (some k) }
+      Step c y { s := y.s.setPc t k.entry, cur := upd y.cur t (some k), start := upd y.start t y.s.idx }
   | ret (y : Sys) (t : Nat) (res : Nat) :
-      y.s.pc t = .retd res → Step c y { s := y.s.setPc t .idle, cur := upd y.cur t none }
+      y.s.pc t = .retd res → Step c y { y with s := y.s.setPc t .idle, cur := upd y.cur t none }
   | spuriousWake (y : Sys) (t : Nat) (x : WCtx) (cur : Nat) :
       y.s.pc t = .wait x (.asleep cur) → Step c y { y with s := y.s.setPc t (.wait x .woken) }
 
